@@ -20,6 +20,8 @@ import (
 //	R-unguarded    such a field for which no access holds any mutex at all
 //	R-process-state     exec.Cmd.ProcessState is read only after Wait is known to have returned
 //	R-loop-capture      (shared with C05)
+//	R-unguarded also covers long-lived objects without any lock: written only by construction code
+//	R-params-copied     (shared with C05)
 //	R-guarded-value     every use of a map loaded from a member that is updated in place under a lock holds that lock,
 //	                    also after the value was returned, passed on or captured
 //	R-exception         publish-by-close idiom recognised by shape
@@ -189,6 +191,9 @@ func checkC20(c *Ctx) {
 	c20ProcessState(c)
 	c05LoopCapture(c, "R-loop-capture")
 	c20GuardedValue(c, guards)
+	c20LongLivedPlain(c, accs)
+	// a message that keeps the caller's map is marshalled later by another goroutine while the caller may reuse the map
+	c05ParamsCopied(c, "R-params-copied")
 }
 
 // publishByClose: see publishByCloseReason.
@@ -463,4 +468,71 @@ func c20GuardedValue(c *Ctx, guards []*FieldGuard) {
 		}
 	}
 	c.R.Min("R-guarded-value", 5)
+}
+
+// c20LongLivedPlain (R-unguarded): a struct without any synchronisation primitive is out of the lockset rule's reach —
+// but when all of its instances are created by construction-only code (constructors, options), they live as long as
+// the server or client and are shared by every request. Such an object must then be immutable after construction: a
+// write to one of its members from any other function (a lazily built table, a cached value) that holds no mutex races
+// with the concurrent requests that read it.
+func c20LongLivedPlain(c *Ctx, accs []Access) {
+	init := c.InitOnly()
+	allocIn := map[string]map[bool]int{} // type key -> {init?: count}
+	for _, fn := range c.P.LibFns {
+		ir.EachInstr(fn, func(_ *ssa.BasicBlock, _ int, in ssa.Instruction) {
+			al, ok := in.(*ssa.Alloc)
+			if !ok {
+				return
+			}
+			pt, ok := al.Type().(*types.Pointer)
+			if !ok {
+				return
+			}
+			nt, ok := pt.Elem().(*types.Named)
+			if !ok || !ir.InLibrary(nt) {
+				return
+			}
+			k := ir.TypeKey(nt)
+			if allocIn[k] == nil {
+				allocIn[k] = map[bool]int{}
+			}
+			allocIn[k][init[fn]]++
+		})
+	}
+	n, bad := 0, 0
+	seen := map[string]bool{}
+	readAfter := map[string]bool{} // members read by non-construction code
+	for _, a := range accs {
+		if !a.Init && !a.Local && !a.Write {
+			readAfter[a.Field] = true
+		}
+	}
+	for _, a := range accs {
+		if a.Init || a.Local || !a.Write || a.OwnerT == nil || concurrentStruct(a.OwnerT) || !readAfter[a.Field] {
+			continue
+		}
+		// a decoder filling the value it was called on is construction of that value
+		if nm := a.Fn.Name(); (nm == "UnmarshalJSON" || nm == "UnmarshalText") && a.Fn.Signature.Recv() != nil {
+			continue
+		}
+		k := ir.TypeKey(a.OwnerT)
+		if allocIn[k][true] == 0 || allocIn[k][false] > 0 {
+			continue // not (only) built by construction-only code
+		}
+		n++
+		if len(a.Locks) > 0 {
+			continue // written under some mutex of its holder: judged by the holder's rules
+		}
+		construct := a.Field + " written in " + fname(a.Fn)
+		if seen[construct] {
+			continue
+		}
+		seen[construct] = true
+		bad++
+		c.R.Violate("R-unguarded", construct, c.Pos(a.Pos),
+			sprintf("%s writes %s after construction without holding any mutex; every %s is created by construction-only code and shared by all concurrent requests, which read that member at the same time (a lazily initialised or cached member needs sync.Once, an atomic, or a mutex)", fname(a.Fn), a.Field, k))
+	}
+	if bad == 0 {
+		c.R.Hold("R-unguarded", "long-lived objects without a lock are not written after construction", "", sprintf("%d post-construction writes examined, all under a mutex", n))
+	}
 }
